@@ -17,7 +17,7 @@ RULE = ("case = 1-5 servers (TCP host:port and UNIX paths, each its own memcache
         "command for key k arrives at place(node names, routing key of k) and nowhere else; a multi-key call "
         "delivers each requested key to exactly one server exactly once; get_many(keys) == {k: get(k)} for present "
         "keys (likewise gets); everything written by set / set_many is found by each single-key reader and mutator. "
-        "Also multi-key calls listing the same bare key under different server keys (each entry must reach its own server; the merged value is unspecified and not judged). Non-trivial: >= 2 servers each owning >= 1 of the keys and >= 1 multi-key call.")
+        "Also multi-key calls listing the same bare key under different server keys (each entry must reach its own server; the merged value is unspecified and not judged). The key collection of get_many / gets_many / delete_many is passed as list, tuple, dict view, or a one-shot iterable (iterator, generator, map object). Non-trivial: >= 2 servers each owning >= 1 of the keys and >= 1 multi-key call.")
 MANIFEST = {
     "category": "exploration",
     "technique": "Hypothesis-generated server sets, key sets and operation scripts over several memcached models behind one fake network; per-server command logs compared with an independent rendezvous/murmur3 reference, plus metamorphic agreement between multi-key and single-key operations",
@@ -33,6 +33,12 @@ ASSUMPTIONS = [
 
 def node_name(addr):
     return addr if isinstance(addr, str) else "%s:%s" % (addr[0], addr[1])
+
+
+def _coll(keys, how):
+    """the key collection as the caller may pass it: any iterable, one-shot ones included"""
+    from vlib.ops import _keys_as
+    return _keys_as(list(keys), how)
 
 
 def check(case):
@@ -120,12 +126,12 @@ def check(case):
                 raise Violation(["get-wrong-value"], "get(%r) = %r, stored %r; %s" % (k, v, vals[i], desc))
         owners_used = {owner(k) for k in keys}
         if keys:
-            gm = call(hc.get_many, list(keys))
+            gm = call(hc.get_many, _coll(keys, case.get("coll")))
             multi_calls += 1
             _check_multi(new_cmds(), keys, wire, owner, "get_many", desc)
             if gm != single:
                 raise Violation(["get_many-differs"], "get_many = %r, per-key gets = %r; %s" % (_brief(gm), _brief(single), desc))
-            gsm = call(hc.gets_many, list(keys))
+            gsm = call(hc.gets_many, _coll(keys, case.get("coll")))
             multi_calls += 1
             _check_multi(new_cmds(), keys, wire, owner, "gets_many", desc)
             for i, k in enumerate(keys):
@@ -142,12 +148,12 @@ def check(case):
             for e in entries:
                 call(hc.set, e, b"dup")
                 new_cmds()
-            call(hc.get_many, list(entries))
+            call(hc.get_many, _coll(entries, case.get("coll")))
             multi_calls += 1
             _check_multi(new_cmds(), entries, wire, owner, "get_many(same key, different server keys)", desc)
             call(hc.gets_many, list(entries) + [bare])
             _check_multi(new_cmds(), entries + [bare], wire, owner, "gets_many(same key, different server keys)", desc)
-            call(hc.delete_many, list(entries))
+            call(hc.delete_many, _coll(entries, case.get("coll")))
             _check_multi(new_cmds(), entries, wire, owner, "delete_many(same key, different server keys)", desc)
         # single-key mutators find what set / set_many wrote
         script = case.get("script", [])
@@ -215,7 +221,7 @@ def check(case):
                 raise Violation(["single-op-misses", op], "%s(%r) returned %r although the key was written by set/set_many (value %r); %s" % (op, k, r, vals[i], desc))
         rest = [k for i, k in enumerate(keys) if alive[i]]
         if rest:
-            if call(hc.delete_many, list(rest)) is not True:
+            if call(hc.delete_many, _coll(rest, case.get("coll"))) is not True:
                 raise Violation(["delete_many-failed"], "delete_many did not return True; %s" % desc)
             multi_calls += 1
             _check_multi(new_cmds(), rest, wire, owner, "delete_many", desc)
@@ -273,20 +279,21 @@ def case_strategy(tier):
     dups = st.lists(st.tuples(st.sampled_from(["dup\x7fkey", "d\x7f2", "\x7fx"]), st.lists(st.sampled_from(["tenant-a", "tenant-b", "sk3", "sk4", "zz"]), min_size=2, max_size=4, unique=True)).map(list),
                     max_size=2)
     return st.fixed_dictionaries({"addrs": servers, "pooling": st.booleans(), "prefix": st.sampled_from([b"", b"", b"p:", b"\xffns/"]),
-                                  "keys": keys2, "script": script, "dups": dups})
+                                  "keys": keys2, "script": script, "dups": dups,
+                                  "coll": st.sampled_from(["list", "list", "tuple", "iter", "generator", "map", "dictview"])})
 
 
 def grid_cases(tier, seed):
     # fixed larger cases: every server count with 50 keys, pooled and not
     for n in (1, 2, 3, 4, 5):
-        for pooling in (False, True):
+        for pooling, coll in ((False, "list"), (True, "list"), (False, "generator"), (True, "iter"), (False, "tuple"), (True, "map")):
             keys = ["key%d" % (i * 7 + seed) for i in range(50)]
             keys = [k.encode() if i % 3 == 0 else k for i, k in enumerate(keys)]
             keys = [(("sk%d" % (i % 4)) if i % 15 else "", k) if i % 5 == 0 else k for i, k in enumerate(keys)]
             yield {"addrs": SERVER_POOL[:n - 1] + [SERVER_POOL[-1]], "pooling": pooling, "prefix": b"g:" if n % 2 else b"",
                    "keys": keys, "script": [{"i": i, "op": op} for i, op in enumerate(
                        ["incr", "touch", "gat", "append", "cas", "delete", "add", "decr", "gats", "prepend", "replace", "get"])],
-                   "dups": [["dup\x7fkey", ["tenant-a", "tenant-b", "sk3", "sk4"]], ["d\x7f2", ["a", "b", "c", "d", "e"]]]}
+                   "dups": [["dup\x7fkey", ["tenant-a", "tenant-b", "sk3", "sk4"]], ["d\x7f2", ["a", "b", "c", "d", "e"]]], "coll": coll}
 
 
 PARTS = [
